@@ -493,6 +493,14 @@ def _reexport(c):
           and "." in t.parameters[0].name and t.parameters[0].name.rsplit(".", 1)[1] == c.name)
 
 
+def _new_as_classmethod(f):
+  return f.name.rsplit(".", 1)[-1] == "__new__" and f.kind.name == "CLASSMETHOD"
+
+
+def _overloaded_module_getattr(f):
+  return f.name.rsplit(".", 1)[-1] == "__getattr__" and len(f.signatures) > 1
+
+
 def _default_before_required(sig):
   seen = False
   for p in sig.params:
@@ -523,6 +531,13 @@ DEVIATIONS = {
         "a signature with a required positional parameter after one with a default",
     "literal-bool-int-collapse":
         "a Literal union with a bool and the equal int (True/1, False/0): members compare equal",
+    # added with the special-method-name alphabet (C05 strengthening)
+    "classmethod-new-read-as-staticmethod":
+        "a function named __new__ of kind CLASSMETHOD - printed with @classmethod, read back as a "
+        "staticmethod (the reader decides by name first), re-printed without the decorator",
+    "module-getattr-overloads-rejected":
+        "a module-level function __getattr__ with several signatures - the printer writes the "
+        "overloads, the reader rejects them (Multiple signatures for module __getattr__)",
 }
 
 
@@ -550,6 +565,10 @@ def deviations_present(ast):
         for s in n.signatures:
           if s.params and s.params[0].name == "self" and isinstance(s.params[0].type, pytd.GenericType):
             out.add("generic-self-annotation-becomes-mutation")
+      if _new_as_classmethod(n):
+        out.add("classmethod-new-read-as-staticmethod")
+      if len(parents) == 1 and _overloaded_module_getattr(n):
+        out.add("module-getattr-overloads-rejected")
     elif cn == "Signature":
       if _default_before_required(n):
         out.add("default-before-required-parameter")
@@ -619,6 +638,11 @@ def neutralise(ast, names):
         s = s.Replace(params=tuple(ps))
       return s
 
+    def VisitFunction(self, f):  # pylint: disable=invalid-name
+      if "classmethod-new-read-as-staticmethod" in names and _new_as_classmethod(f):
+        return f.Replace(kind=pytd.MethodKind.STATICMETHOD)
+      return f
+
     def VisitUnionType(self, u):  # pylint: disable=invalid-name
       if "literal-bool-int-collapse" in names and _bool_int_clash(u):
         rest = tuple(t for t in u.type_list if not _is_bool_literal(t))
@@ -634,9 +658,60 @@ def neutralise(ast, names):
             if not (isinstance(a.type, pytd.Module) and a.type.module_name != a.name)))
       if "reexported-typing-name-dropped" in names:
         u = u.Replace(constants=tuple(c for c in u.constants if not _reexport(c)))
+      if "module-getattr-overloads-rejected" in names:
+        u = u.Replace(functions=tuple(
+            f.Replace(signatures=f.signatures[:1]) if _overloaded_module_getattr(f) else f
+            for f in u.functions))
       return u
 
   return ast.Visit(_N())
+
+
+# ---- special method names (StubGen.tla BeginDunder): the declarations the spec says the printed
+# ---- text denotes, and the cells of the name x kind x first-parameter cross a stub exercises
+
+def expected_read(stub):
+  """The stub term the reader is expected to return for the text of `stub`, as StubGen.tla states it
+  on every func declaration made by BeginDunder: kind := rk (the kind the printed text denotes under
+  the pinned name convention), and, if ab, the first parameter's annotation := Any (the printer
+  leaves `self: <class>` / `cls: type[<class>]` out).  None if the stub has no such declaration."""
+  changed = [False]
+
+  def fix(d):
+    if d["k"] == "class":
+      return dict(d, body=[fix(x) for x in d["body"]])
+    if d["k"] == "func" and "rk" in d:
+      e = dict(d)
+      if d["rk"] != d["kind"]:
+        e["kind"] = d["rk"]
+        changed[0] = True
+      if d["ab"]:
+        e["sigs"] = [dict(sg, ps=[dict(sg["ps"][0], t=["any", "", []])] + list(sg["ps"][1:]))
+                     for sg in d["sigs"]]
+        changed[0] = True
+      return e
+    return d
+  out = {"decls": [fix(d) for d in stub["decls"]]}
+  return out if changed[0] else None
+
+
+def dunder_cells(ast):
+  """For every function with a __dunder__ name below `ast`:
+  '<name>/<KIND>/<first parameter name or ->/<c|m>/<number of signatures>/<flags>' (c: in a class)."""
+  pytd = _pytd()
+  out = []
+  for n, parents in walk(ast):
+    if type(n).__name__ != "Function":
+      continue
+    nm = n.name.rsplit(".", 1)[-1]
+    if not (nm.startswith("__") and nm.endswith("__")):
+      continue
+    incls = any(type(p).__name__ == "Class" for p in parents)
+    firsts = sorted({(sg.params[0].name if sg.params else "-") for sg in n.signatures})
+    flags = "+".join(sorted(f.name for f in pytd.MethodFlag if f in n.flags and f.name != "NONE"))
+    out.append("%s/%s/%s/%s/%d/%s" % (nm, n.kind.name, firsts[0], "c" if incls else "m",
+                                      min(len(n.signatures), 2), flags))
+  return sorted(set(out))
 
 
 # ---- C12: documented deviations of the serialisation round trip and their neutralisers
